@@ -775,6 +775,19 @@ func runCmpRange(c *Ctx, r *RuleRun) {
 			if isStringType(pr.Type()) {
 				hasBounds = true
 			}
+			// bounds that travel together in a struct (keyRange{start, end}): still a selector with bounds - the clauses
+			// for two string bounds do not read it, those for "takes every table" do not apply
+			t := pr.Type()
+			if pt, ok := t.Underlying().(*types.Pointer); ok {
+				t = pt.Elem()
+			}
+			if st, ok := t.Underlying().(*types.Struct); ok && p.isModuleNamed(t) != nil && !p.recvIs(f, p.isModuleNamed(t).Obj().Name()) {
+				for i := 0; i < st.NumFields(); i++ {
+					if isStringType(st.Field(i).Type()) {
+						hasBounds = true
+					}
+				}
+			}
 		}
 		eachInstr(f, func(ins ssa.Instruction) {
 			ret, ok := ins.(*ssa.Return)
@@ -1219,6 +1232,37 @@ func runGcKeep(c *Ctx, r *RuleRun) {
 		return isMap
 	})
 	flushed := p.FuncMayDo(f, isFlushCand)
+	if !flushed {
+		// the library form: slices.AppendSeq(result, maps.Values(candidates)) / slices.Collect(maps.Values(…))
+		eachInstr(f, func(ins ssa.Instruction) {
+			cl, ok := ins.(*ssa.Call)
+			if !ok {
+				return
+			}
+			g := cl.Call.StaticCallee()
+			if g == nil {
+				return
+			}
+			if og := g.Origin(); og != nil {
+				g = og
+			}
+			if g.Pkg == nil || g.Pkg.Pkg.Path() != "slices" || (g.Name() != "AppendSeq" && g.Name() != "Collect") {
+				return
+			}
+			seq := cl.Call.Args[len(cl.Call.Args)-1]
+			if vc, ok := seq.(*ssa.Call); ok {
+				h := vc.Call.StaticCallee()
+				if h != nil && h.Origin() != nil {
+					h = h.Origin()
+				}
+				if h != nil && h.Pkg != nil && h.Pkg.Pkg.Path() == "maps" && h.Name() == "Values" && len(vc.Call.Args) == 1 {
+					if _, isMap := vc.Call.Args[0].Type().Underlying().(*types.Map); isMap {
+						flushed = true
+					}
+				}
+			}
+		})
+	}
 	r.Check(flushed, fn, "candidates appended after the loop", p.Pos(f.Pos()), "for _, e := range candidates { result = append(result, e) }", "the candidates collected in the map are never appended to the result: every version at or below the threshold is dropped, including the newest one that reads still need")
 	// sorted with CompareKeys before the return of a built result
 	isSort := func(ins ssa.Instruction) bool {
